@@ -44,6 +44,21 @@ NEEDS = {
  "c17-dump_items-ignores-is_branch-again": "a KyTea trie in which a non-entry state carries suffix outputs (real Aho-Corasick output lists)",
  "c20-wsconst-filters-run-on-unnormalised-sentence": "predict (normalising mode) with --wsconst T or O and a dash look-alike (U+FF0D, U+2015, U+2500, U+2013) next to a katakana / other character where the model predicts a boundary",
  "c20-evaluate-needs_normalization-misses-u2500": "evaluate without --no-norm: a reference line containing U+2500 and no ASCII, U+20xx or U+FFxx character",
+ "c05-tokenized-slash-guard-and": "a tokenized input starting with an unescaped '/' and containing a second unescaped '/' before any space ('//', '/a/b')",
+ "c05-set_default-keeps-n_tags-again": "a sentence that had tags, then any failed update",
+ "c05-update_partial-keeps-scores": "predict on the sentence, then a successful update_partial_annotation",
+ "c08-update_raw-clears-tags-only-if-linked": "tagged update_tokenized / update_partial_annotation or reset_tags(k>0) without a linked predictor, then update_raw(x); predict (no tag fill, or a model without tags)",
+ "c08-tag_scores-resized-not-cleared": "one score-storing predictor: a known token ending at position p on an earlier text, an unknown token ending at p on a later text",
+ "c08-tag_scores-cleared-only-when-storing": "a score-storing predictor on text t1, then a non-storing predictor on text t2 (longer: panic; shorter: stale candidates)",
+ "c07-read_slice-split_at-panics": "any slice of 0..24 bytes (shorter than the header), e.g. the file left by a write that failed in the header",
+ "c07-write-magic-single-write-again": "a writer whose first call accepts fewer than 25 bytes",
+ "c07-read-magic-single-read-again": "a reader whose first read returns fewer than 25 bytes",
+ "c17-inside-weight-overwritten": "a word of >= 2 characters in >= 2 dictionaries with a non-zero inside weight in a lower-numbered dictionary",
+ "c17-type_w-type_n-swapped": "a KyTea file whose type window differs from its maximum type n-gram length",
+ "c17-read_u32-short-reads-again": "truncation inside the last u32 the reader consumes, or a BufRead whose chunk boundary falls inside a u32",
+ "c20-fill_tags-before-wsconst-filters": "predict --predict-tags --wsconst X (normalising mode): the filter removes a predicted boundary and the right-hand piece is a word the tag model knows",
+ "c20-evaluate-matched-not-reset": "evaluate --metric word: a sentence whose last word is wrong directly followed by a sentence whose first word is right",
+ "c20-no-norm-score-blocks-swapped": "predict --no-norm --predict-tags --scores --tag-scores on any accepted line",
  "c20-line-cache-stale-index-after-4096": "one predict process: a line, then more than 4096 distinct lines, then the first line again",
 }
 res = {}
